@@ -116,6 +116,31 @@ def crash_point_cases(prefix, n_stmts, thread_cfgs, rng, every_cfg):
     return out
 
 
+def thread_signal_cases(prefix, n_stmts, rng, full):
+    """a handled signal raised on an extra logging thread, at every crash point of the main thread; and two threads
+    raising different signals at about the same time (one enters first, the other parks)"""
+    out = []
+    k = 0
+    cfgs = ["a3", "a2;f2;c2000"] if full else ["a3"]
+    for p in range(n_stmts + 1):
+        for s in SIGNALS:
+            for clock in ("sys", "tsc"):
+                for busy in (True, False):
+                    for th in cfgs:
+                        k += 1
+                        sc = ["H", "L%d" % p, "W"] + ([BUSY] if busy else ["F", "Z3"]) + ["tsig:1:%s" % s]
+                        out.append(case_line("%s%d" % (prefix, k), sc, clock=clock, threads=th))
+    for i in range(len(SIGNALS) * (5 if full else 2)):
+        st = SIGNALS[i % len(SIGNALS)]
+        sm = SIGNALS[(i + 1 + i // len(SIGNALS)) % len(SIGNALS)]
+        if st == sm:
+            sm = SIGNALS[(i + 2) % len(SIGNALS)]
+        k += 1
+        sc = ["H", "L%d" % rng.randrange(0, 5), "W"] + ([BUSY] if i % 2 else ["F"]) + ["dsig:1:%s:%s:%d" % (st, sm, rng.choice([0, 50, 100, 200, 300, 500, 800]))]
+        out.append(case_line("%s%d" % (prefix, k), sc, clock=rng.choice(["sys", "tsc"]), threads=rng.choice(["a3", "a2;a1"])))
+    return out
+
+
 def lifecycle_cases(prefix, n, rng):
     """random start/stop programmes: cycles with redundant starts/stops, logging while stopped, then an end action"""
     out = []
@@ -197,9 +222,11 @@ def gen_cases(tier, seed, after_stop_limit):
     cases = directed_cases("d", after_stop_limit)
     if tier == "quick":
         cases += crash_point_cases("p", 4, THREADS, rng, every_cfg=True)
+        cases += thread_signal_cases("t", 4, rng, full=False)
         cases += lifecycle_cases("l", 200, rng)
     else:
         cases += crash_point_cases("p", 8, THREADS, rng, every_cfg=True)
+        cases += thread_signal_cases("t", 8, rng, full=True)
         cases += lifecycle_cases("l", 2500, rng)
     return cases
 
@@ -256,7 +283,7 @@ def run(prop, tier):
     after_stop_limit = 100 if pargs[1] == "1" else 8
     scratch = tempfile.mkdtemp(prefix="h4_exit_", dir="/tmp")
     state = dict(cases=0, traces=0, oracle=[], mismatches=[], aborts=[], classes={}, statuses={}, nontrivial=set(), samples=[],
-                 done=[], stats=[], stmts=0, unspecified=0)
+                 done=[], stats=[], stmts=0, unspecified=0, two_entrants={})
 
     def process(res):
         by_id, tr = {}, {}
@@ -267,6 +294,10 @@ def run(prop, tier):
                 m = re.search(r"status=(\S+)", ln)
                 if m:
                     state["statuses"][m.group(1)] = state["statuses"].get(m.group(1), 0) + 1
+                m = re.search(r"dsig:\d+:(SIG[A-Z]+):(SIG[A-Z]+):\d+ => .* nsig=(\S+)", ln)
+                if m:
+                    who = "thread-first" if m.group(3) == m.group(1) else "main-first" if m.group(3) == m.group(2) else "no-notice"
+                    state["two_entrants"][who] = state["two_entrants"].get(who, 0) + 1
                 m = re.search(r"found=(\S+)", ln)
                 if m and m.group(1) != "-":
                     state["stmts"] += sum(int(x) for x in m.group(1).split(","))
@@ -390,6 +421,7 @@ def run(prop, tier):
                     "two stop() calls; distinct = distinct case specifications (SHA-1 of the spec without its id)",
             "cases_by_model_class": state["classes"],
             "wait_statuses": state["statuses"],
+            "two_threads_raising_at_once (which entered first)": state["two_entrants"],
             "samples": state["samples"],
             "corpus_files": ncorpus,
             "harness_stats": state["stats"],
